@@ -35,7 +35,7 @@ var (
 	c05Origins = []string{"code", "oidc", "hyb-idt", "password", "device"}
 	c05Granted = []string{"a", "a offline", "a b.c offline", "a rt", "b.c offline_access", "ab.c offline"}
 	c05Params  = []string{"none", "scope-admin", "scope-wider", "audience-other", "scope-narrower"}
-	c05Edits   = []string{"none", "rm-a", "narrow-b", "rm-aud", "rm-refresh-grant", "rm-offline", "rm-ab"}
+	c05Edits   = []string{"none", "rm-a", "narrow-b", "rm-aud", "rm-refresh-grant", "rm-offline", "rm-ab", "rm-all-aud"}
 	c05RScopes = []string{"none", "default", "custom"}
 	c05Strats  = []string{"exact", "wildcard", "hierarchic"}
 )
@@ -128,7 +128,13 @@ func c05Run(c c05Case, res *WRes) {
 		if aud != "" {
 			f.Set("audience", aud)
 		}
-		o = w.Token(f, w.AuthFor("C"))
+		if c.Partial {
+			// the application grants this user nothing of what the client asked for (a guest account)
+			o = w.TokenWith(f, w.AuthFor("C"), TokenOpts{GrantAll: true, GrantScopes: func([]string) []string { return nil }})
+			granted = nil
+		} else {
+			o = w.Token(f, w.AuthFor("C"))
+		}
 		sub = ""
 	case "device":
 		f := url.Values{"scope": {scope}, "client_id": {"C"}}
@@ -209,6 +215,9 @@ func c05Run(c c05Case, res *WRes) {
 		cl.Scopes = append(cl.Scopes, "b.x")
 	case "rm-aud":
 		cl.Audience = []string{"https://other.example"}
+	case "rm-all-aud":
+		// the registration no longer allows any audience at all
+		cl.Audience = []string{}
 	case "rm-refresh-grant":
 		cl.GrantTypes = without(cl.GrantTypes, "refresh_token")
 	case "rm-offline":
@@ -352,8 +361,8 @@ func init() {
 										if variant == 3 && (j.Origin == "password" || !hg || ed != "none" || pa != "none" || pr != "owner" || ch != 0) {
 											continue // one case per (origin, granted, audience, config): only issuance is judged
 										}
-										if variant == 1 && (j.Origin == "password" || j.Origin == "device") {
-											continue // partial consent only exists at the authorization endpoint
+										if variant == 1 && j.Origin == "device" {
+											continue // partial consent exists at the authorization endpoint (and, as "nothing granted", in the password grant)
 										}
 										if variant == 2 && ed == "none" {
 											continue
